@@ -36,7 +36,7 @@ ASSUMPTIONS = [
     "USE_JIT off (library runs as plain Python)",
 ]
 BUDGET = {
-    "quick": dict(cases=220, shards=4, timeout=900),
+    "quick": dict(cases=300, shards=4, timeout=900),
     "thorough": dict(cases=1000, shards=16, timeout=3000),
 }
 CLASSES = [
@@ -705,34 +705,8 @@ def spec_is_hash(case):
 
 
 def _reference(scorer, n, V, width, eos, fin_all, T):
-    """Textbook search with tie detection restricted to what can change the answer: the pruning
-    boundary at every step and, when the best path decides termination, the head of the beam."""
-    beam = [((), 0.0)]
-    tie, done, steps = False, False, 0
-    eps = lambda a: 4e-5 * max(1.0, abs(a))
-    for t in range(T):
-        if eos is not None and t:
-            fin = [len(p) > 0 and p[-1] == eos for p, _ in beam]
-            if all(fin) if fin_all else fin[0]:
-                done = True
-                break
-        cand = {}
-        for p, s in beam:
-            if eos is not None and len(p) > 0 and p[-1] == eos:
-                cand[p] = s
-                continue
-            lp = scorer.next_lp(n, p)
-            for v in range(V):
-                cand[p + (v,)] = s + lp[v]
-        ranked = sorted(cand.items(), key=lambda kv: (-kv[1], kv[0]))
-        if len(ranked) > width and abs(ranked[width - 1][1] - ranked[width][1]) <= eps(ranked[width][1]):
-            tie = True
-        if eos is not None and not fin_all and len(ranked) > 1 and width > 1 \
-                and abs(ranked[0][1] - ranked[1][1]) <= eps(ranked[0][1]):
-            tie = True
-        beam = ranked[:width]
-        steps = t + 1
-    return beam, steps, tie, done
+    """Textbook dictionary beam search of element n (vmon/oracles/c04_hashtable.py)."""
+    return HT.textbook_beam_search(lambda p: scorer.next_lp(n, p), V, width, eos, fin_all, T)
 
 
 def _exec_advance(case, mon):
